@@ -352,12 +352,23 @@ def run(m: Model, r: Report, tier: str) -> None:
             "R5", f"{ru.qualname}#driven-by-responses",
             f"state rules test {[ast.unparse(t) for t in tests]}: they must be driven by what the server answered (a rejected request changes nothing but "
             "still interrupts a seed/key sequence)", loc=ru.loc)
-    sa = m.require_function(f"{SRV}.RandomUDSServer.security_access")
-    src = ast.unparse(sa.node)
-    r.check(canon_text("self.state.last_sa_response is None or request.security_access_type != self.state.last_sa_response.security_access_type + 1") in src and
-            "UDSErrorCodes.requestSequenceError" in src and m.has(sa, "request.security_key == expected_key") and "UDSErrorCodes.invalidKey" in src and
-            "self.state.last_sa_response = None" in src, "R5", f"{sa.qualname}#seed-key-sequence",
-            "sendKey must be refused with requestSequenceError unless it directly follows the matching requestSeed, and a seed is valid for one attempt", loc=sa.loc)
+    from sa.uds_rules import security_access_table
+    sa, sa_rows = security_access_table(m)
+    bad_sa = []
+    for (kind, last, rtype, key), out, after in sa_rows:
+        if kind == "RequestSeedRequest":
+            ok_ = isinstance(out, tuple) and out[:2] == ("SecurityAccessResponse", rtype) and len(out) == 3
+        elif last is None or last + 1 != rtype:
+            ok_ = out == ("NRC", "requestSequenceError")
+        elif key == b"SEED":
+            ok_ = out == ("SecurityAccessResponse", rtype) and after is None
+        else:
+            ok_ = out == ("NRC", "invalidKey") and after is None
+        if not ok_:
+            bad_sa.append(f"{kind}(type {rtype}, key {key!r}) with pending seed of type {last}: answers {out}, pending seed afterwards {'kept' if after is not None else 'none'}")
+    r.check(not bad_sa, "R5", f"{sa.qualname}#seed-key-sequence",
+            f"{bad_sa[:3]}: sendKey must be refused with requestSequenceError unless it directly follows the matching requestSeed, the right key is answered positively, "
+            "a wrong one with invalidKey, and a seed is valid for one attempt", loc=sa.loc)
 
     r.assumptions += ["ISO 14229-1 general server response behaviour as summarised in DESIGN.md appendix A"]
     r.not_decided += ["the answer for every model / state / request (runtime behaviour)"]
